@@ -1437,6 +1437,100 @@ fn exec<T: Elem>(pool: &mut Pool<T>, op: &WireOp, ctx: &Ctx) -> String {
             format!("[{}]", v.join(","))
         }
         // ----- rows / columns handed to several threads (C17) -----
+        // rows / columns split between the main thread and a worker through iterator adaptors (nth / nth_back / step_by /
+        // rev / skip run on the outer iterator itself): the main thread keeps `front` vectors, the rest of the iterator is
+        // moved to a worker that consumes it through the adaptor; nothing is mutated, element addresses are collected per
+        // thread and must be pairwise distinct and inside the buffer
+        (141, [s, front, adaptor, axis]) => {
+            need!(pool, *s);
+            let m = pool[us(*s)].as_mut().unwrap();
+            let (front, adaptor) = (*front as usize, *adaptor);
+            let lo = m.iter_elements().next().map_or(0, |x| x as *const T as usize);
+            let bytes = m.size() * std::mem::size_of::<T>();
+            let mut sets: Vec<Vec<usize>> = Vec::new();
+            macro_rules! scan {
+                ($it:expr) => {{
+                    let mut it = $it;
+                    let mut mine = Vec::new();
+                    for _ in 0..front {
+                        if let Some(v) = it.next() {
+                            mine.push(v);
+                        }
+                    }
+                    let rest = it.len();
+                    std::thread::scope(|sc| {
+                        let h = sc.spawn(move || {
+                            let mut addrs = Vec::new();
+                            let mut take = |v: &mut dyn Iterator<Item = &mut T>| {
+                                for x in v {
+                                    addrs.push(x as *mut T as usize);
+                                }
+                            };
+                            match adaptor {
+                                0 => it.rev().step_by(2).for_each(|mut v| take(&mut v)),
+                                1 => it.rev().skip(1).for_each(|mut v| take(&mut v)),
+                                2 => {
+                                    // past the front-most remaining vector: must be None, and nothing may follow
+                                    if let Some(mut v) = it.nth_back(rest) {
+                                        take(&mut v);
+                                    }
+                                    if let Some(mut v) = it.next_back() {
+                                        take(&mut v);
+                                    }
+                                }
+                                3 => it.step_by(2).for_each(|mut v| take(&mut v)),
+                                4 => {
+                                    if let Some(mut v) = it.nth(rest) {
+                                        take(&mut v);
+                                    }
+                                    if let Some(mut v) = it.next() {
+                                        take(&mut v);
+                                    }
+                                }
+                                5 => {
+                                    if rest > 0 {
+                                        if let Some(mut v) = it.nth_back(rest - 1) {
+                                            take(&mut v);
+                                        }
+                                    }
+                                    it.for_each(|mut v| take(&mut v));
+                                }
+                                _ => it.rev().for_each(|mut v| take(&mut v)),
+                            }
+                            addrs
+                        });
+                        let mut main_addrs = Vec::new();
+                        for v in mine {
+                            for x in v {
+                                main_addrs.push(x as *mut T as usize);
+                            }
+                        }
+                        sets.push(main_addrs);
+                        sets.push(h.join().expect("worker thread"));
+                    });
+                }};
+            }
+            if *axis == 0 {
+                scan!(m.iter_rows_mut());
+            } else {
+                scan!(m.iter_cols_mut());
+            }
+            let mut verdict = "()".to_string();
+            if std::mem::size_of::<T>() != 0 {
+                let mut seen = std::collections::HashMap::new();
+                for (t, set) in sets.iter().enumerate() {
+                    for a in set {
+                        if *a < lo || *a >= lo + bytes {
+                            verdict = "OUTSIDE".to_string();
+                        }
+                        if let Some(prev) = seen.insert(*a, t) {
+                            verdict = format!("OVERLAP(threads {prev} and {t})");
+                        }
+                    }
+                }
+            }
+            verdict
+        }
         (140, [s, nthreads, f, axis]) => {
             need!(pool, *s);
             let m = pool[us(*s)].as_mut().unwrap();
